@@ -235,6 +235,9 @@ PROPS["C04"] = {
 PROPS["C11"] = {
     "level": "other",
     "technique": "Verus call-site frame obligations on the extracted QueryEngine entry points that take user SQL (plan_read_only_sql, execute, execute_stream, analyze, prepare and the planning statements of extract_time_range, extract_column_predicates, execute_with_indexes): user SQL reaches the engine only through sql_with_options with DDL, DML and statements disallowed, and only read-only frames are run",
+    "frame_scans": [{"file": "src/query/engine.rs", "patterns": [".sql(", ".sql_with_options(", ".execute_logical_plan(", ".state().create_logical_plan("],
+                     "allowed_units": ["plan_read_only_sql"],
+                     "message": "user SQL may reach the embedded engine only through plan_read_only_sql (the one place that plans with DDL / DML / statements disallowed)"}],
     "verus": ["c11_readonly.rs.in"],
     "explanation": "The deciding semantics live inside DataFusion: it is ASSUMED that SessionContext::sql_with_options with DDL, DML and statements disallowed returns an error for every plan that is not a read-only query and performs no write, while SessionContext::sql gives no such guarantee. Under that dependency contract each entry point is proved to leave storage, catalog and session bindings unchanged for every SQL string; a call site that goes back to ctx.sql or relaxes an option fails its frame obligation. HTTP / Flight / Prometheus handlers are covered because they all funnel into these entry points (not checked mechanically).",
     "assumptions": [
